@@ -37,6 +37,25 @@ PROPS = {
                                                 "sm4.mode/cfb.dec.blocks+tail", "sm4.mode/ofb.enc.blocks+tail", "sm4.mode/cbc.enc.badiv"]})],
         assumptions=["BlockModes.tla transcribes the standard modes (CBC+PKCS#7, CFB-128, OFB, CTR-BE128); anchored by OpenSSL-made vectors"],
     ),
+    "C08": dict(
+        level="model_checking",
+        rule="events = ZUC::new and generate_keystream(n) calls; sessions = generators; distinct = distinct (key, iv, request history); non-trivial = requests with n > 0 "
+             "and zero-length requests that are followed by further requests (all but the 'new' events)",
+        trivial_classes=("new",),
+        models=[dict(module="MC_Mersenne", about="end-around-carry addition and rotation modulo 2^5-1, every operand pair: equals arithmetic mod 2^w-1"),
+                dict(module="MC_ZUCSplit", about="request layer refines the word-at-a-time stream for every composition (toy totals), zero-length requests included")],
+        stages=[dict(suite="zuc", trace="TraceZUC", plan=dict(module="PlanZUC", cfg_quick="PlanZUC_q", cfg_thorough="PlanZUC_t"),
+                     required_classes={"both": ["zuc.req/first", "zuc.req/continued", "zuc.req/zero-length"]})],
+        assumptions=["ZUC.tla transcribes GM/T 0001 / ZUC v1.6 (three official vectors and the structural S-box definitions as ASSUMEs)"],
+    ),
+    "C18": dict(
+        level="model_checking",
+        rule="events = EEA::encrypt / EIA::gen_mac calls on fresh objects; distinct = distinct (key, count, bearer, direction, length, message); non-trivial = all",
+        models=[dict(module="MC_EEA", about="mask / bit-extraction / shift helpers equal their bit-level meaning for every shift and basis word; IV layouts for all bearers/directions")],
+        stages=[dict(suite="eea", trace="TraceZUC",
+                     required_classes={"both": ["eea.encrypt/eea.len%32=0", "eea.encrypt/eea.len%32=1", "eea.encrypt/eea.len%32=31", "eia.mac/eia.len0", "eia.mac/eia.len%32=0", "eia.mac/eia.len-other"]})],
+        assumptions=["EEA3.tla transcribes 3GPP TS 35.221 (official test sets as ASSUMEs) over ZUC.tla"],
+    ),
 }
 
 # what MANIFEST.json says about each claimed check
@@ -66,13 +85,28 @@ MANIFEST_TEXT["C07"] = dict(
          "(inconsistent PKCS#7 padding with a valid last byte) both outcomes are allowed.",
     technique="TLA+ trace validation with TLC (mode state machines) + exhaustive toy model of the parametric mode module",
 )
+MANIFEST_TEXT["C08"] = dict(
+    text="The ZUC generator is specified as a state machine (ZUC.tla: Load, 32 InitRounds, Discard, Produce; S-boxes defined structurally; three official vectors as "
+         "anchors). TLC enumerates EVERY composition of every total <= 8 (quick) / <= 12 (thorough) into request sizes with interspersed zero-length requests (PlanZUC); each "
+         "is replayed on a real generator and every request is judged against the specification state carried through the session (TraceZUC), plus long streams with random "
+         "splits, structured and single-bit keys/IVs. Toy models: Mersenne arithmetic (spec form and code form) for all operands, and refinement of the request layer to the "
+         "word-at-a-time stream for all compositions.",
+    note="Trusted: TLC/SANY, CommunityModules, the transcription of ZUC v1.6 in ZUC.tla (official vectors as ASSUMEs), harness logging.",
+    technique="TLA+ trace validation with TLC (generator state machine, TLC-enumerated request compositions) + exhaustive toy models",
+)
+MANIFEST_TEXT["C18"] = dict(
+    text="Every recorded 128-EEA3 / 128-EIA3 call (every LENGTH 0..600 in the thorough tier, a boundary-heavy subset in quick; all bearers and directions; involution and "
+         "bit-dependence sequences; random keys/messages) is judged by EEA3.tla (3GPP test sets as anchors) over ZUC.tla; the word-level mask/shift/extraction helpers are "
+         "model-checked against their bit-level meaning for every argument (MC_EEA).",
+    note="Trusted: TLC/SANY, CommunityModules, the transcription of TS 35.221 in EEA3.tla (official test sets as ASSUMEs), harness logging.",
+    technique="TLA+ trace validation with TLC + exhaustive model of the word-level helpers",
+)
 
 NOT_APPLICABLE = {
     "C03": "machinery for this property is not built yet in this round (specification module in progress); not claimed until its check is sound",
     "C04": "machinery for this property is not built yet in this round (specification module in progress); not claimed until its check is sound",
     "C05": "machinery for this property is not built yet in this round (specification module in progress); not claimed until its check is sound",
     "C06": "machinery for this property is not built yet in this round (specification module in progress); not claimed until its check is sound",
-    "C08": "machinery for this property is not built yet in this round (specification module in progress); not claimed until its check is sound",
     "C09": "machinery for this property is not built yet in this round (specification module in progress); not claimed until its check is sound",
     "C10": "machinery for this property is not built yet in this round (specification module in progress); not claimed until its check is sound",
     "C11": "machinery for this property is not built yet in this round (specification module in progress); not claimed until its check is sound",
@@ -82,7 +116,6 @@ NOT_APPLICABLE = {
     "C15": "machinery for this property is not built yet in this round (specification module in progress); not claimed until its check is sound",
     "C16": "machinery for this property is not built yet in this round (specification module in progress); not claimed until its check is sound",
     "C17": "machinery for this property is not built yet in this round (specification module in progress); not claimed until its check is sound",
-    "C18": "machinery for this property is not built yet in this round (specification module in progress); not claimed until its check is sound",
     "C19": "machinery for this property is not built yet in this round (specification module in progress); not claimed until its check is sound",
     "C20": "machinery for this property is not built yet in this round (specification module in progress); not claimed until its check is sound",
 }
